@@ -382,6 +382,13 @@ impl<SP: StorageProvider> World<SP> {
         let mut req_cache = self.caches.remove(&(a, b)).unwrap_or_default();
         let mut resp_cache = self.caches.remove(&(b, a)).unwrap_or_default();
         // the two clients, mutably
+        out.push(format!("cache_before req={} resp={}", {
+            let v: Vec<String> = req_cache.heads().iter().map(|h| format!("{}@{}@{}", idx(h.id), h.segment.get(), h.max_cut.get())).collect();
+            if v.is_empty() { "-".to_string() } else { v.join(",") }
+        }, {
+            let v: Vec<String> = resp_cache.heads().iter().map(|h| format!("{}@{}@{}", idx(h.id), h.segment.get(), h.max_cut.get())).collect();
+            if v.is_empty() { "-".to_string() } else { v.join(",") }
+        }));
         let (ca, cb) = if a < b {
             let (l, r) = self.clients.split_at_mut(b);
             (&mut l[a], &mut r[0])
@@ -621,6 +628,53 @@ pub fn run_script<B: Backend>(backend: &mut B, lines: &mut dyn Iterator<Item = S
                     let w = world.as_mut().unwrap();
                     w.session(&toks, &mut out);
                     out.push("sess done".into());
+                }
+                "conv" => {
+                    // conv <a> <b> <maxrounds> [session opts]: alternate sessions a<-b, b<-a until both deliver nothing
+                    let w = world.as_mut().unwrap();
+                    let a = toks[1];
+                    let b = toks[2];
+                    let maxr: usize = toks[3].parse().unwrap();
+                    let mut sid: u128 = kv(&toks, "sid").unwrap_or("1000").parse().unwrap();
+                    let extra: Vec<&str> = toks[4..].iter().copied().filter(|t| !t.starts_with("sid=")).collect();
+                    let mut rounds = 0;
+                    for _ in 0..maxr {
+                        rounds += 1;
+                        let mut quiet = true;
+                        for (x, y) in [(a, b), (b, a)] {
+                            let xi: usize = x.parse().unwrap();
+                            let yi: usize = y.parse().unwrap();
+                            out.push(format!("dump {} {}", yi, w.dump(yi)));
+                            out.push(format!("dump {} {}", xi, w.dump(xi)));
+                            sid += 1;
+                            let sids = format!("sid={}", sid);
+                            let mut t: Vec<&str> = vec!["sess", x, y, &sids];
+                            t.extend(extra.iter().copied());
+                            let before = out.len();
+                            w.session(&t, &mut out);
+                            out.push("sess done".into());
+                            if out[before..].iter().any(|l| l.starts_with("msg resp")) {
+                                quiet = false;
+                            }
+                        }
+                        if quiet {
+                            break;
+                        }
+                    }
+                    let ai: usize = a.parse().unwrap();
+                    let bi: usize = b.parse().unwrap();
+                    out.push(format!("dump {} {}", ai, w.dump(ai)));
+                    out.push(format!("dump {} {}", bi, w.dump(bi)));
+                    out.push(format!("conv done rounds={}", rounds));
+                }
+                "forget" => {
+                    // forget <a> <b>: drop both peer caches of the pair
+                    let w = world.as_mut().unwrap();
+                    let a: usize = toks[1].parse().unwrap();
+                    let b: usize = toks[2].parse().unwrap();
+                    w.caches.remove(&(a, b));
+                    w.caches.remove(&(b, a));
+                    out.push("forget ok".into());
                 }
                 "hello" => {
                     // hello <advertiser> <receiver>: advertiser's hello_head, receiver's decision
